@@ -70,6 +70,11 @@ CHECKS = {
    technique="bounded-exhaustive enumeration of access-log record streams x every batch composition x restart points through the real discovery.Run / State / convergent URL tree, with conservation and batch-invariance oracles",
    text="Every record stream up to length 3 over 20 record letters (5 URLs of which three converge under an inferred path parameter, 4 method/status/duration/consumer/interceptor profiles), length 4 over 10 letters and length 5 over 4 URLs (thorough: one longer each) is processed by the real aggregation plugin in every composition into consecutive batches, and again with a restart (state read back from disk, tree rebuilt) after every batch. Final state: counts sum to the number of records, per endpoint and per consumer count = records attributed = sum of status counts, min/max = extreme timestamps, averages = exact means within 1e-4; identical statistics for all compositions; totals preserved across restarts.",
    note="attribution uses the run's own final URL tree (lookup only); convergence threshold 2; after a restart only totals are compared"),
+
+ "C19": dict(level="model_checking", engine="python-bfs", design="§3 C19",
+   technique="explicit-state BFS over call/clock histories of the real Python FailSafe driven through the real requests-hook closure (time patched, stub third-party modules) against a routing/propagation envelope; full product enumeration for TrafficFilter.is_allowed",
+   text="For thresholds 1-3 x cool-downs 1-2 s the fail-safe is built through FailSafeConfig from the two environment variables exactly as the package does and driven through RequestsHook's _request closure; every history up to depth 8 (10 thorough) of calls with scripted outcomes (success, gateway connection error, x-lunar-error header, application exception on the gateway / direct path) and clock steps is explored with state merging. Checked: the gateway is not tried while the breaker must be open, calls are not bypassed without cause, gateway-side failures are swallowed and retried directly, other exceptions propagate unchanged, a gateway success clears the count. TrafficFilter: 9x9 allow/block lists x 34 destinations (names resolving to private / loopback / 172.16-31 edges, IPv6 literals, unresolvable and malformed names) x 3 header variants: is_allowed never raises and never returns True for excluded, private, loopback or unresolvable destinations.",
+   note="yarl / multidict / requests are stubs (not installed in the image); DNS from a fixed table; both readings of 'tries the gateway again' after a cool-down are accepted"),
 }
 NA_REASON = "check not built yet in this round (work in progress; planned per DESIGN.md §3)"
 def main():
